@@ -400,6 +400,10 @@ def _verify(con: Contract, pack: Pack, modular_contracts: dict, res: FuncResult)
                 et.bind(eng)
             st.assume(et.pred(term))
             argvals.append(SV(term, hint=et.hint))
+    if a.kwarg is not None:
+        # keyword arguments collected by **kwargs: given by the contract as concrete names with (possibly symbolic) values
+        for k_, v_ in getattr(con, "extra_kwargs", {}).items():
+            kwvals[k_] = v_
     pre = st.copy()
     ctx0 = Ctx(eng, params, pre, pre, assuming=True)
     for nm, fn in con.requires_:
